@@ -23,6 +23,9 @@ pub(crate) fn generation(l: &Local) -> usize {
 pub(crate) fn set_generation(l: &Local, g: usize) {
     l.generation.set(g)
 }
+pub(crate) const fn const_local() -> Local {
+    Local { generation: core::cell::Cell::new(0) }
+}
 pub(crate) fn new_local() -> Local {
     Local::default()
 }
